@@ -219,6 +219,17 @@ def run(tier, seed):
         st.execution(None, outcome=('lookup-list', res.status), root=('lookup-list', cat))
         if sorted(rep.names(cat)) != sorted(n for n in names):
             st.violation('lookup-list-incomplete:%s' % cat, {'asked': names, 'got': rep.names(cat)})
+    vcases = []
+    for (cat, dbname, inst) in H.pick(ts, seed, 20 if tier == 'quick' else 100):
+        ctx = ctxs[len(vcases) % len(ctxs)]
+        pos = ('alone', 'first', 'middle', 'last')[len(vcases) % 4]
+        lists = build_lists(cat, inst, pos, ctx, 'server')
+        small = ctx[3]
+        vcases.append({'label': '%s %s %s' % (cat, inst, ctx), 'opts': ['-n'] + (['-j'] if len(vcases) % 2 else []),
+                       'make': (lambda lists=lists, small=small: peer.Server(kex=lists['kex'], key=lists['key'], enc=lists['enc'], mac=lists['mac'], banner=b'SSH-2.0-dropbear_2022.83',
+                                host_keys=peer.standard_host_keys(lists['key'], rsa_bits=1024 if small else 3072, ca='rsa', ca_bits=1024 if small else 3072),
+                                gex=peer.GexPolicy([1024], peer.STRICT) if small else None))})
+    validated = H.validate_traces(vcases, st)
     return evidence.finish(
         PID, tier, seed, st, t0,
         rule='every database name (gss-* entries instantiated with 3 base64 suffixes) and one unknown name per category x position '
@@ -227,7 +238,7 @@ def run(tier, seed):
              'non-trivial = distinct (category, name, documented context, position, role, format)' % len(ctxs),
         assumptions=['documented context = Terrapin context (refmodels/terrapin.py) and measured sizes (held fixed here)',
                      'notes compared as multisets'],
-        exhaustive=True, extra={'names': len(ts)})
+        exhaustive=True, traces_validated=validated, extra={'names': len(ts)})
 
 
 def replay(path):
